@@ -36,6 +36,7 @@ import (
 	"github.com/bluenviron/gohlslib/v2"
 	"github.com/bluenviron/gohlslib/v2/pkg/codecs"
 	"github.com/bluenviron/mediacommon/v2/pkg/codecs/h264"
+	"github.com/bluenviron/mediacommon/v2/pkg/codecs/mpeg4audio"
 	"github.com/bluenviron/mediacommon/v2/pkg/formats/fmp4"
 	"github.com/bluenviron/mediacommon/v2/pkg/formats/fmp4/seekablebuffer"
 	"github.com/bluenviron/mediacommon/v2/pkg/formats/mpegts"
@@ -51,6 +52,10 @@ type e2eScenario struct {
 	Parts int `json:"parts,omitempty"`
 	// slow consumer: hold the first sample of the LAST part of each segment instead of the segment's first sample
 	HoldLastPart bool `json:"hold_last_part,omitempty"`
+	// live fMP4 playlist that advertises parts and a preload hint (EXT-X-SERVER-CONTROL with PART-HOLD-BACK only,
+	// EXT-X-PART-INF, EXT-X-PRELOAD-HINT) but NOT blocking reloads: a legal playlist the client has to consume in
+	// its traditional, throttled mode; the hinted part is served at once and counts as a downloaded media file
+	Hint bool `json:"hint,omitempty"`
 }
 
 func (sc e2eScenario) parts() int {
@@ -86,6 +91,11 @@ func e2eScenarios(tier string) []e2eScenario {
 		// "both return promptly on cancellation", end to end: Close while the MPEG-TS stream processor is blocked
 		// pushing into the full sample queue of a track whose processor sleeps between two samples
 		{Name: "ts-vod-cancel-full-sample-queue", Format: "ts", Kind: "cancel", N: 150},
+		// mode selection: without CAN-BLOCK-RELOAD the look-ahead bound applies, whatever else the playlist advertises
+		{Name: "fmp4-live-slow-preload-hint-without-blocking-reload", Format: "fmp4", Kind: "live", N: 8, Slow: true, Hint: true},
+		// a declared track whose fragment holds no sample (trun sample_count 0) in the second of four segments:
+		// every downloaded segment is passed on, in order, and the end of the stream is reported
+		{Name: "fmp4-vod-empty-track-fragment", Format: "fmp4", Kind: "empty-traf", N: 4},
 	}
 	if tier == "thorough" {
 		s = append(s,
@@ -181,6 +191,7 @@ type e2eRun struct {
 	cond *sync.Cond
 
 	reloads        int
+	hints          int  // hinted parts served
 	segReqs        int  // k
 	samplesEntered int  // F = samplesEntered / sc.sps()
 	parked         bool // the downloader announced its throttle and has made no request since
@@ -226,6 +237,9 @@ func (r *e2eRun) RoundTrip(req *http.Request) (*http.Response, error) {
 		r.reloads++
 		var sb strings.Builder
 		sb.WriteString("#EXTM3U\n#EXT-X-VERSION:7\n#EXT-X-MEDIA-SEQUENCE:0\n#EXT-X-TARGETDURATION:1\n")
+		if r.sc.Hint {
+			sb.WriteString("#EXT-X-SERVER-CONTROL:PART-HOLD-BACK=3.00000\n#EXT-X-PART-INF:PART-TARGET=1.00000\n")
+		}
 		if r.sc.Kind == "vod" {
 			sb.WriteString("#EXT-X-PLAYLIST-TYPE:VOD\n")
 		}
@@ -238,13 +252,20 @@ func (r *e2eRun) RoundTrip(req *http.Request) (*http.Response, error) {
 		if endlist {
 			sb.WriteString("#EXT-X-ENDLIST\n")
 			r.endlistSeen = true
+		} else if r.sc.Hint {
+			sb.WriteString("#EXT-X-PRELOAD-HINT:TYPE=PART,URI=\"part.mp4\"\n")
 		}
 		body = []byte(sb.String())
 	case p == "/init.mp4":
 		body = e2eFMP4Init()
 	default:
 		var idx int
-		if _, err := fmt.Sscanf(p, "/seg%d"+ext, &idx); err != nil {
+		if r.sc.Hint && p == "/part.mp4" {
+			// the hinted part: the server never makes the client wait for it; its media continues the
+			// stream (a client that takes this path never fetches segments)
+			idx = r.hints
+			r.hints++
+		} else if _, err := fmt.Sscanf(p, "/seg%d"+ext, &idx); err != nil {
 			status = 404
 			break
 		}
@@ -253,15 +274,22 @@ func (r *e2eRun) RoundTrip(req *http.Request) (*http.Response, error) {
 		if k-f > r.maxAhead {
 			r.maxAhead = k - f
 		}
-		if k-f > 2 && r.violation == "" {
+		// (disarmed once the harness has decided to close the client: after Close no sample reaches the callback
+		// any more, so F stands still, while a cancelled MPEG-TS stream processor still drains the segments that
+		// are queued - its pushes into the buffered sample queue and pull() on a non-empty queue succeed without
+		// looking at the context - and lets the downloader fetch a few more before everybody returns)
+		if k-f > 2 && r.violation == "" && !r.stop {
 			r.violationKind = "live"
 			if r.endlistSeen {
 				r.violationKind = "endlist"
 			}
+			if r.sc.Hint {
+				r.violationKind = "live:preload-hint-without-blocking-reload"
+			}
 			r.violation = fmt.Sprintf("the downloader requests %s as its %d-th segment although only %d segment(s) have been fully processed: "+
 				"%d downloaded segments are unprocessed, at most one of them is being processed, so at least %d are already waiting in the queue and this one will be the %d-th "+
-				"(at most 2 may wait in the traditional mode); requests so far: %v",
-				p[1:], k+1, f, k-f, k-f-1, k-f, r.reqLog)
+				"(at most 2 may wait in the traditional mode); requests so far: %v [samples entered %d, stop=%v]",
+				p[1:], k+1, f, k-f, k-f-1, k-f, r.reqLog, r.samplesEntered, r.stop)
 		}
 		r.segReqs++
 		r.reqLog = append(r.reqLog, p[1:])
@@ -523,6 +551,9 @@ func e2eClientGoroutines() (lines []string, atRest bool) {
 		default:
 			atRest = false
 		}
+		if bytes.Contains(blk, []byte("(*clientTrack).handleData")) {
+			atRest = false // waits for the presentation time of a sample: a timer will wake it
+		}
 		frame := ""
 		for _, l := range strings.Split(string(blk), "\n") {
 			if strings.HasPrefix(l, "github.com/bluenviron/gohlslib/v2.") {
@@ -650,9 +681,216 @@ func e2eCancelExecute(sc e2eScenario) e2eCancelResult {
 	return res
 }
 
+// ---------- a track fragment without samples ----------
+//
+// VOD fMP4, video + audio in one playlist, sc.N segments of three video access units (10 ms apart) and two
+// audio frames; in the SECOND segment the audio track fragment is present but holds no sample (trun with
+// sample_count 0: legal ISO-BMFF, produced by packagers when no audio frame falls into a fragment).
+//
+// Oracle (property text: "segments pass from the client's downloader to its processor in download order, each
+// exactly once ... a waiting processor proceeds as soon as a segment is queued, a throttled downloader
+// proceeds as soon as the backlog drains"): every video access unit of every segment reaches the data
+// callback, in order, once, and Wait() reports the end of the stream. A stalled pipeline is recognised by
+// state, not by a timeout: four consecutive goroutine dumps 50 ms apart in which every goroutine of the
+// client is blocked, none of them waits for a sample's presentation time, the set is unchanged, and Wait()
+// is silent. A 10 s watchdog turns anything else into an infrastructure error (three reproductions).
+
+type e2eEmptyTrafTransport struct {
+	n    int
+	mu   sync.Mutex
+	reqs []string
+}
+
+func (t *e2eEmptyTrafTransport) RoundTrip(req *http.Request) (*http.Response, error) {
+	var body []byte
+	status := 200
+	p := req.URL.Path
+	var idx int
+	switch {
+	case p == "/index.m3u8":
+		var sb strings.Builder
+		sb.WriteString("#EXTM3U\n#EXT-X-VERSION:7\n#EXT-X-TARGETDURATION:1\n#EXT-X-MEDIA-SEQUENCE:0\n#EXT-X-PLAYLIST-TYPE:VOD\n#EXT-X-MAP:URI=\"init.mp4\"\n")
+		for i := 0; i < t.n; i++ {
+			fmt.Fprintf(&sb, "#EXTINF:0.03000,\nseg%d.mp4\n", i)
+		}
+		sb.WriteString("#EXT-X-ENDLIST\n")
+		body = []byte(sb.String())
+	case p == "/init.mp4":
+		body = e2eMP4(&fmp4.Init{Tracks: []*fmp4.InitTrack{
+			{ID: 1, TimeScale: 90000, Codec: &fmp4.CodecH264{SPS: e2eSPS, PPS: e2ePPS}},
+			{ID: 2, TimeScale: 48000, Codec: &fmp4.CodecMPEG4Audio{Config: mpeg4audio.Config{Type: 2, SampleRate: 48000, ChannelCount: 2}}},
+		}})
+	default:
+		if _, err := fmt.Sscanf(p, "/seg%d.mp4", &idx); err != nil || idx < 0 || idx >= t.n {
+			status = 404
+			break
+		}
+		t.mu.Lock()
+		t.reqs = append(t.reqs, p[1:])
+		t.mu.Unlock()
+		var vs []*fmp4.PartSample
+		for i := 0; i < e2eSamplesPerPart; i++ {
+			au := [][]byte{{1, byte(idx), byte(i)}}
+			if i == 0 {
+				au = [][]byte{e2eSPS, e2ePPS, {5, byte(idx), 0}}
+			}
+			b, err := h264.AVCC(au).Marshal()
+			if err != nil {
+				panic(err)
+			}
+			vs = append(vs, &fmp4.PartSample{Duration: e2eTick, Payload: b, IsNonSyncSample: i != 0})
+		}
+		var as []*fmp4.PartSample
+		if idx != 1 { // the second segment: an audio fragment without samples
+			as = []*fmp4.PartSample{{Duration: 720, Payload: []byte{1, byte(idx)}}, {Duration: 720, Payload: []byte{2, byte(idx)}}}
+		}
+		body = e2eMP4(&fmp4.Part{SequenceNumber: uint32(idx), Tracks: []*fmp4.PartTrack{
+			{ID: 1, BaseTime: uint64(idx * e2eSamplesPerPart * e2eTick), Samples: vs},
+			{ID: 2, BaseTime: uint64(idx * 1440), Samples: as},
+		}})
+	}
+	return &http.Response{
+		StatusCode: status, Status: fmt.Sprintf("%d", status), Proto: "HTTP/1.1", ProtoMajor: 1, ProtoMinor: 1,
+		Header: http.Header{}, Body: io.NopCloser(bytes.NewReader(body)), ContentLength: int64(len(body)), Request: req,
+	}, nil
+}
+
+type e2eEmptyTrafResult struct {
+	stalled string
+	wrong   string
+	infra   string
+	video   int
+}
+
+func e2eEmptyTrafExecute(sc e2eScenario) e2eEmptyTrafResult {
+	var res e2eEmptyTrafResult
+	tr := &e2eEmptyTrafTransport{n: sc.N}
+	var mu sync.Mutex
+	var video []string
+	audio := 0
+	cl := &gohlslib.Client{
+		URI:                       "http://stub.invalid/index.m3u8",
+		HTTPClient:                &http.Client{Transport: tr},
+		OnDownloadPrimaryPlaylist: func(string) {},
+		OnDownloadStreamPlaylist:  func(string) {},
+		OnDownloadSegment:         func(string) {},
+		OnDownloadPart:            func(string) {},
+		OnDecodeError:             func(error) {},
+	}
+	cl.OnTracks = func(tracks []*gohlslib.Track) error {
+		for _, t := range tracks {
+			switch t.Codec.(type) {
+			case *codecs.H264:
+				cl.OnDataH26x(t, func(_ int64, _ int64, au [][]byte) {
+					last := au[len(au)-1]
+					mu.Lock()
+					if len(last) >= 3 {
+						video = append(video, fmt.Sprintf("%d.%d", last[1], last[2]))
+					} else {
+						video = append(video, "?")
+					}
+					mu.Unlock()
+				})
+			case *codecs.MPEG4Audio:
+				cl.OnDataMPEG4Audio(t, func(int64, [][]byte) {
+					mu.Lock()
+					audio++
+					mu.Unlock()
+				})
+			}
+		}
+		return nil
+	}
+	if err := cl.Start(); err != nil {
+		res.infra = "Client.Start: " + err.Error()
+		return res
+	}
+	var werr error
+	reported := false
+	var last []string
+	same := 0
+	deadline := time.Now().Add(10 * time.Second)
+	for !reported {
+		select {
+		case werr = <-cl.Wait():
+			reported = true
+			continue
+		case <-time.After(50 * time.Millisecond):
+		}
+		lines, atRest := e2eClientGoroutines()
+		if atRest && len(lines) > 0 && strings.Join(lines, "|") == strings.Join(last, "|") {
+			same++
+		} else {
+			same = 0
+		}
+		last = lines
+		if same >= 3 {
+			mu.Lock()
+			tr.mu.Lock()
+			res.stalled = fmt.Sprintf("the pipeline is stalled: segments requested %v, video access units delivered (segment.index) %v, audio frames %d; Wait() is silent and in four consecutive "+
+				"goroutine dumps 50 ms apart every goroutine of the client is blocked, none waits for a sample's time, nothing changes: %v", tr.reqs, video, audio, lines)
+			tr.mu.Unlock()
+			mu.Unlock()
+			break
+		}
+		if time.Now().After(deadline) {
+			res.infra = fmt.Sprintf("watchdog: no end of stream after 10 s and the client is not at rest: %v", lines)
+			break
+		}
+	}
+	cl.Close()
+	mu.Lock()
+	defer mu.Unlock()
+	res.video = len(video)
+	if reported {
+		var want []string
+		for sgi := 0; sgi < sc.N; sgi++ {
+			for i := 0; i < e2eSamplesPerPart; i++ {
+				want = append(want, fmt.Sprintf("%d.%d", sgi, i))
+			}
+		}
+		switch {
+		case !errors.Is(werr, gohlslib.ErrClientEOS):
+			res.wrong = fmt.Sprintf("the client ended with %q instead of the end of the stream (video access units delivered: %v)", werr, video)
+		case strings.Join(video, " ") != strings.Join(want, " "):
+			res.wrong = fmt.Sprintf("end of stream reported, but the video access units delivered (segment.index) are %v, expected %v", video, want)
+		case audio != 2*(sc.N-1):
+			res.wrong = fmt.Sprintf("end of stream reported, but %d audio frames were delivered, expected %d", audio, 2*(sc.N-1))
+		}
+	}
+	return res
+}
+
 // run every scenario; a hang counts only if it reproduces three times
 func e2eLeg(scs []e2eScenario, dist map[string]int) (fails []failure, errs []string, n int) {
 	for _, sc := range scs {
+		if sc.Kind == "empty-traf" {
+			var er e2eEmptyTrafResult
+			for try := 0; try < 3; try++ {
+				er = e2eEmptyTrafExecute(sc)
+				if er.infra == "" {
+					break
+				}
+				dist["e2e:watchdog-retry"]++
+			}
+			n++
+			if er.infra != "" {
+				errs = append(errs, "e2e scenario "+sc.Name+": "+er.infra)
+				continue
+			}
+			dist["e2e:scenario:"+sc.Name]++
+			dist["e2e:empty-traf:video-access-units-delivered"] += er.video
+			in, _ := json.Marshal(sc)
+			if er.stalled != "" {
+				fails = append(fails, failure{Signature: "C20:pipeline-stalls:fmp4-track-fragment-without-samples",
+					What: "real Client, scenario " + sc.Name + ": " + er.stalled, Input: in, trad: true})
+			}
+			if er.wrong != "" {
+				fails = append(fails, failure{Signature: "C20:order-or-eos:fmp4-track-fragment-without-samples",
+					What: "real Client, scenario " + sc.Name + ": " + er.wrong, Input: in, trad: true})
+			}
+			continue
+		}
 		if sc.Kind == "cancel" {
 			var cr e2eCancelResult
 			for try := 0; try < 3; try++ {
